@@ -34,7 +34,7 @@ fn lookup(id: &str) -> Option<(RunFn, ReplayFn)>
         "C02" => Some((props::c02::run, props::c02::replay)),
         "C03" => Some((props::realp::run_c03, props::realp::replay_c03)),
         "C04" => Some((props::realp::run_c04, props::realp::replay_c04)),
-        "C05" => Some((props::schedp::run_c05, props::schedp::replay_c05)),
+        "C05" => Some((props::realp::run_c05, props::realp::replay_c05)),
         "C06" => Some((props::schedp::run_c06, props::schedp::replay_c06)),
         "C07" => Some((props::audits::run_c07, props::audits::replay_c07)),
         "C08" => Some((props::audits::run_c08, props::audits::replay_c08)),
